@@ -4,17 +4,17 @@ import TarpcModel.Lemmas.DelayQInv
 Shared invariants of the client model (`Client/Model.lean`, `Client/Run.lean`).
 
 * `StInv s now` (= `Inv' none none s now`): the state invariant at virtual time `now`, a conjunction of
-  - `TInv`  — in-flight table ↔ armed timers (bound, `DelayQ.WF`/`Timely`, every entry has its timer armed not before
-              `dueAt` its deadline — `dueAt d = min d clampNs` when the armed timeout is clamped (`clampTimeout`),
-              `d` otherwise —, every timer has its entry);
+  - `TInv`  — in-flight table ↔ armed timers (bound, `DelayQ.WF`/`Timely`, every entry has its timer and
+              `deadline ≤ whenMs * 1e6 + remainder` — the armed timer plus the part of the time until the deadline
+              that `clampTimeout` cut off and `poll_expired` re-arms later —, every timer has its entry);
   - `IdInv` — request ids queued or in flight are pairwise distinct and `< nextId`;
   - `CInv`  — call ids (`cid`) are unique, request ids of live/resolved polled calls are distinct and `< nextId`, a
-              oneshot / outcome holding `DeadlineExceeded` implies `dueAt` the call's deadline has passed;
+              oneshot / outcome holding `DeadlineExceeded` implies the call's deadline has passed;
   - `RInv`  — a call still waiting for its permit has not been enqueued; queued / in-flight requests carry the deadline
               of their call;
   - `OInv`  — every observation emitted so far is `ObsGood` at `now` (counts within bound and equal; only the
               `DelayQueue::insert` range panic, and — if the clamp fits the queue's range, `ClampFits` — only at or
-              after `panicFreeNs` = 2^35 ms; `resolved … DeadlineExceeded t` only with `dueAt deadline ≤ t ≤ now`).
+              after `panicFreeNs` = 2^35 ms; `resolved … DeadlineExceeded t` only with `deadline ≤ t ≤ now`).
   `Inv' x b` generalises it for use *inside* a poll: `x = some cid` while call `cid` is in its first poll (it already
   owns a request id although its phase still says `notPolled`), `b = some f` to assert that the state's `frame`
   (calls' `(cid, ctx)`, `maxInFlight`, handles) still equals `f`.
@@ -36,40 +36,16 @@ open TarpcModel.DelayQ
 /-- `MAX_DEADLINE_TIMEOUT` in ns (meaningful when `Gen.clientTimerClampSecs ≠ 0`). -/
 def clampNs : Nat := Gen.clientTimerClampSecs * 1000000000
 
-/-- The earliest instant the deadline timer of a request with deadline `d` may fire: `d` itself, or — when the
-armed timeout is clamped — `min d clampNs` (a timer armed at `now` with `min (d - now) clampNs` fires at
-`now + min (d - now) clampNs ≥ min d clampNs`). -/
-def dueAt (d : Nat) : Nat := if Gen.clientTimerClampSecs == 0 then d else min d clampNs
-
-theorem dueAt_le (d : Nat) : dueAt d ≤ d := by
-  unfold dueAt; split
+theorem clampTimeout_le_self (t : Nat) : clampTimeout t ≤ t := by
+  unfold clampTimeout; split
   · exact Nat.le_refl _
   · exact Nat.min_le_left _ _
 
-/-- The timer armed by `insert_request` is not before `dueAt deadline`. -/
-theorem dueAt_le_arm (now d : Nat) : dueAt d ≤ now + clampTimeout (d - now) := by
-  unfold dueAt clampTimeout clampNs
-  split <;> omega
-
-/-- "never early", spelled out: `dueAt d ≤ t` iff the deadline has passed or the clamp is active and has passed. -/
-theorem dueAt_le_iff (d t : Nat) :
-    dueAt d ≤ t ↔ d ≤ t ∨ (Gen.clientTimerClampSecs ≠ 0 ∧ clampNs ≤ t) := by
-  unfold dueAt
-  split
-  · rename_i h; simp only [beq_iff_eq] at h; simp [h]
-  · rename_i h; simp only [beq_iff_eq] at h; simp only [ne_eq, h, not_false_eq_true, true_and]; omega
-
-/-- Before `clampNs` the clamp is invisible. -/
-theorem le_of_dueAt_le {d t : Nat} (h : dueAt d ≤ t) (ht : t < clampNs) : d ≤ t := by
-  rcases (dueAt_le_iff d t).mp h with h | ⟨_, h⟩
-  · exact h
-  · omega
-
-/-- Deadlines up to `clampNs` are not affected by the clamp. -/
-theorem dueAt_eq_of_le {d : Nat} (hd : d ≤ clampNs) : dueAt d = d := by
-  unfold dueAt; split
-  · rfl
-  · exact Nat.min_eq_left hd
+/-- `insert_request` arms the timer with a clamped timeout and keeps the rest as the entry's `remainder`: together
+they reach the deadline. -/
+theorem deadline_le_arm (now d : Nat) :
+    d ≤ now + clampTimeout (d - now) + ((d - now) - clampTimeout (d - now)) := by
+  have := clampTimeout_le_self (d - now); omega
 
 /-! ### observations -/
 
@@ -86,11 +62,11 @@ instance : Decidable ClampFits := by unfold ClampFits; exact inferInstance
 /-- What the invariant promises about each observation emitted so far (`m` = `max_in_flight_requests`, `now` = the
 virtual clock): `counts` are within the bound and agree, the only panic site ever reached is the `DelayQueue::insert`
 range check — and, if the clamp fits the queue's range (`ClampFits`), not before `panicFreeNs` —, and a
-`DeadlineExceeded` resolution carries a time (not in the future) not before `dueAt` the deadline of the call. -/
+`DeadlineExceeded` resolution carries a time (not in the future) not before the deadline of the call. -/
 def ObsGood (m : Nat) (calls : List Call) (now : Nat) : Obs → Prop
   | .counts _ i t => i ≤ m ∧ i = t
   | .panic _ site => site = "DelayQueue::insert: invalid deadline" ∧ (ClampFits → panicFreeNs ≤ now)
-  | .resolved cid o t => o = .deadline → ∃ c ∈ calls, c.cid = cid ∧ dueAt c.ctx.deadline ≤ t ∧ t ≤ now
+  | .resolved cid o t => o = .deadline → ∃ c ∈ calls, c.cid = cid ∧ c.ctx.deadline ≤ t ∧ t ≤ now
   | _ => True
 
 theorem ObsGood.mono {m : Nat} {calls : List Call} {now now' : Nat} {o : Obs} (h : ObsGood m calls now o)
@@ -418,8 +394,8 @@ structure TInv (m : Nat) (inf : List Entry) (q : DelayQ) (now : Nat) : Prop wher
   bound : inf.length ≤ m
   wf : q.WF
   timely : q.Timely now
-  /-- every entry has its timer, armed for its id and not before its deadline -/
-  e2t : ∀ en ∈ inf, ∃ w, q.Has en.timerKey en.id w ∧ dueAt en.ctx.deadline ≤ w * nsPerMs
+  /-- every entry has its timer, armed for its id; the timer and the `remainder` still to be armed reach the deadline -/
+  e2t : ∀ en ∈ inf, ∃ w, q.Has en.timerKey en.id w ∧ en.ctx.deadline ≤ w * nsPerMs + en.remainder
   /-- every timer belongs to an entry -/
   t2e : ∀ k v w, q.Has k v w → ∃ en ∈ inf, en.timerKey = k ∧ en.id = v
 
@@ -441,8 +417,8 @@ structure CInv (x : Option Nat) (calls : List Call) (nextId now : Nat) : Prop wh
   cidNodup : (calls.map (·.cid)).Nodup
   idLt : ∀ c ∈ calls, Assigned x c → c.id < nextId
   idInj : ∀ c1 ∈ calls, ∀ c2 ∈ calls, Assigned x c1 → Assigned x c2 → c1.id = c2.id → c1.cid = c2.cid
-  osDl : ∀ c ∈ calls, c.os.val = some .deadline → dueAt c.ctx.deadline ≤ now
-  outDl : ∀ c ∈ calls, c.outcome = some .deadline → dueAt c.ctx.deadline ≤ now
+  osDl : ∀ c ∈ calls, c.os.val = some .deadline → c.ctx.deadline ≤ now
+  outDl : ∀ c ∈ calls, c.outcome = some .deadline → c.ctx.deadline ≤ now
 
 structure RInv (x : Option Nat) (calls : List Call) (pq : List DReq) (inf : List Entry) : Prop where
   /-- a call still waiting for its permit has not been enqueued -/
@@ -631,10 +607,12 @@ theorem TInv.remove {m : Nat} {inf : List Entry} {q q' : DelayQ} {now : Nat} {b 
     rw [this] at e1
     exact hk2 e1.symm
 
-theorem TInv.insert {m : Nat} {inf : List Entry} {q q' : DelayQ} {now : Nat} {b : Bool} (h : TInv m inf q now)
-    (hlt : inf.length < m) (id cid key : Nat) (ctx : Ctx)
-    (hi : q.insert now (clampTimeout (ctx.deadline - now)) id = (q', .ok key, b)) :
-    TInv m (inf ++ [{ id := id, cid := cid, ctx := ctx, timerKey := key }]) q' now := by
+/-- A new entry whose timer is armed now with timeout `t`, if `t` and the entry's `remainder` reach its deadline. -/
+theorem TInv.insertEntry {m : Nat} {inf : List Entry} {q q' : DelayQ} {now t : Nat} {b : Bool} (h : TInv m inf q now)
+    (hlt : inf.length < m) (en' : Entry)
+    (hi : q.insert now t en'.id = (q', .ok en'.timerKey, b))
+    (hd : en'.ctx.deadline ≤ now + t + en'.remainder) :
+    TInv m (inf ++ [en']) q' now := by
   have hs := insert_spec h.wf hi
   refine ⟨by simp; omega, hs.wf, hs.timely now h.timely, ?_, ?_⟩
   · intro en hen
@@ -643,9 +621,7 @@ theorem TInv.insert {m : Nat} {inf : List Entry} {q q' : DelayQ} {now : Nat} {b 
     · obtain ⟨w, hw, hd⟩ := h.e2t en hen
       exact ⟨w, (hs.has _ _ _).mpr (Or.inl hw), hd⟩
     · refine ⟨_, (hs.has _ _ _).mpr (Or.inr ⟨rfl, rfl, rfl⟩), ?_⟩
-      have := le_insertWhen q now (clampTimeout (ctx.deadline - now))
-      have := dueAt_le_arm now ctx.deadline
-      simp only
+      have := le_insertWhen q now t
       omega
   · intro k v w hk
     rcases (hs.has _ _ _).mp hk with hk | ⟨rfl, rfl, rfl⟩
@@ -653,11 +629,26 @@ theorem TInv.insert {m : Nat} {inf : List Entry} {q q' : DelayQ} {now : Nat} {b 
       exact ⟨en, List.mem_append_left _ hen, e1, e2⟩
     · exact ⟨_, List.mem_append_right _ (List.mem_singleton.mpr rfl), rfl, rfl⟩
 
-/-- `poll_expired` on a consistent table: a yielded timer belongs to exactly one entry, whose deadline has passed. -/
+theorem TInv.insert {m : Nat} {inf : List Entry} {q q' : DelayQ} {now : Nat} {b : Bool} (h : TInv m inf q now)
+    (hlt : inf.length < m) (id cid key : Nat) (ctx : Ctx)
+    (hi : q.insert now (clampTimeout (ctx.deadline - now)) id = (q', .ok key, b)) :
+    TInv m (inf ++ [{ id := id, cid := cid, ctx := ctx, timerKey := key,
+                      remainder := (ctx.deadline - now) - clampTimeout (ctx.deadline - now) }]) q' now :=
+  h.insertEntry hlt _ hi (deadline_le_arm now ctx.deadline)
+
+/-- The table only matters as a set (of at most `m` entries). -/
+theorem TInv.of_mem {m : Nat} {inf inf' : List Entry} {q : DelayQ} {now : Nat} (h : TInv m inf q now)
+    (hb : inf'.length ≤ m) (hm : ∀ x, x ∈ inf' ↔ x ∈ inf) : TInv m inf' q now :=
+  ⟨hb, h.wf, h.timely, fun en hen => h.e2t en ((hm en).mp hen), fun k v w hk => by
+    obtain ⟨en, hen, e1, e2⟩ := h.t2e k v w hk
+    exact ⟨en, (hm en).mpr hen, e1, e2⟩⟩
+
+/-- `poll_expired` on a consistent table: a yielded timer belongs to exactly one entry, whose deadline has passed
+up to the `remainder` still to be armed; without the entry the table is consistent with the queue after the poll. -/
 theorem TInv.expired {m : Nat} {inf : List Entry} {q : DelayQ} {now : Nat} (h : TInv m inf q now)
     (hn : (inf.map (·.id)).Nodup) :
     (∀ e, (q.pollExpired now).2 = .expired e →
-      ∃ en ∈ inf, en.id = e.val ∧ dueAt en.ctx.deadline ≤ now ∧
+      ∃ en ∈ inf, en.id = e.val ∧ en.ctx.deadline ≤ now + en.remainder ∧
         TInv m (inf.filter (·.id != e.val)) (q.pollExpired now).1 now) ∧
     ((q.pollExpired now).2.entry = none → TInv m inf (q.pollExpired now).1 now) := by
   have hs := pollExpired_spec q now h.wf h.timely
@@ -670,7 +661,7 @@ theorem TInv.expired {m : Nat} {inf : List Entry} {q : DelayQ} {now : Nat} (h : 
       rw [e1, e2] at hw
       exact (Has.functional h.wf hw h1).2
     refine ⟨en, hen, e2, ?_, ?_⟩
-    · rw [hwe] at hd; exact Nat.le_trans hd h2
+    · rw [hwe] at hd; omega
     · refine ⟨Nat.le_trans (List.length_filter_le _ _) h.bound, hs.wf, hs.timely, ?_, ?_⟩
       · intro en' hen'
         simp only [List.mem_filter, bne_iff_ne, ne_eq] at hen'
@@ -743,8 +734,8 @@ structure CallOK (x : Option Nat) (now : Nat) (c c' : Call) : Prop where
   id : c'.id = c.id
   asg : Assigned x c' → Assigned x c
   wait : Waiting x c' → Waiting x c
-  os : c'.os.val = some .deadline → c.os.val = some .deadline ∨ dueAt c.ctx.deadline ≤ now
-  out : c'.outcome = some .deadline → c.outcome = some .deadline ∨ dueAt c.ctx.deadline ≤ now
+  os : c'.os.val = some .deadline → c.os.val = some .deadline ∨ c.ctx.deadline ≤ now
+  out : c'.outcome = some .deadline → c.outcome = some .deadline ∨ c.ctx.deadline ≤ now
 
 theorem CallOK.refl (x : Option Nat) (now : Nat) (c : Call) : CallOK x now c c :=
   ⟨rfl, rfl, rfl, fun h => h, fun h => h, Or.inl, Or.inl⟩
@@ -908,7 +899,7 @@ theorem Inv'.weaken {x : Option Nat} {b : Snap} {s : St} {now : Nat} (h : Inv' x
 /-! ### oneshot, `resolve` -/
 
 theorem Inv'.osSend {x : Option Nat} {b : Snap} {s : St} {now : Nat} (h : Inv' x b s now) (cid : Nat) (o : Outcome)
-    (ho : o = .deadline → ∀ c ∈ s.calls, c.cid = cid → dueAt c.ctx.deadline ≤ now) : Inv' x b (osSend s cid o) now := by
+    (ho : o = .deadline → ∀ c ∈ s.calls, c.cid = cid → c.ctx.deadline ≤ now) : Inv' x b (osSend s cid o) now := by
   unfold Client.osSend
   split
   · exact h
@@ -925,7 +916,7 @@ theorem Inv'.osSend {x : Option Nat} {b : Snap} {s : St} {now : Nat} (h : Inv' x
       · exact h1
 
 theorem Inv'.resolve {x : Option Nat} {b : Snap} {s : St} {now cid : Nat} {c : Call} (h : Inv' x b s now) (o : Outcome)
-    (hg : getCall s cid = some c) (ha : Assigned x c) (ho : o = .deadline → dueAt c.ctx.deadline ≤ now) :
+    (hg : getCall s cid = some c) (ha : Assigned x c) (ho : o = .deadline → c.ctx.deadline ≤ now) :
     Inv' x b (resolve s cid o now) now := by
   unfold Client.resolve
   simp only
@@ -1076,8 +1067,8 @@ theorem insertRequest_some {s s' : St} {now : Nat} {r : DReq} (h : insertRequest
       s' = emit { s with poisoned := true } (.panic (tid s) "DelayQueue::insert: invalid deadline")) ∨
     (findEntry s r.id = none ∧ ∃ q key w, s.timers.insert now (clampTimeout (r.ctx.deadline - now)) r.id = (q, .ok key, w) ∧
       s' = (if w then
-              wakeDispatch { s with timers := q, inflight := s.inflight ++ [{ id := r.id, cid := r.cid, ctx := r.ctx, timerKey := key }] }
-            else { s with timers := q, inflight := s.inflight ++ [{ id := r.id, cid := r.cid, ctx := r.ctx, timerKey := key }] })) := by
+              wakeDispatch { s with timers := q, inflight := s.inflight ++ [{ id := r.id, cid := r.cid, ctx := r.ctx, timerKey := key, remainder := (r.ctx.deadline - now) - clampTimeout (r.ctx.deadline - now) }] }
+            else { s with timers := q, inflight := s.inflight ++ [{ id := r.id, cid := r.cid, ctx := r.ctx, timerKey := key, remainder := (r.ctx.deadline - now) - clampTimeout (r.ctx.deadline - now) }] })) := by
   unfold Client.insertRequest at h
   split at h
   · rename_i hf; cases h; exact Or.inl ⟨hf, rfl⟩
@@ -1106,7 +1097,7 @@ theorem Inv'.insertRequest {x : Option Nat} {b : Snap} {s : St} {now : Nat} {r :
   · exact Inv'.emit (s := { s with poisoned := true }) ⟨h0.fr, h0.t, h0.i, h0.c, h0.r, h0.o⟩
       ⟨rfl, insert_panic_late hins⟩
   · have hnone := findEntry_none_ne hf
-    suffices hS : Inv' x b { s with timers := q, inflight := s.inflight ++ [{ id := r.id, cid := r.cid, ctx := r.ctx, timerKey := key }] } now by
+    suffices hS : Inv' x b { s with timers := q, inflight := s.inflight ++ [{ id := r.id, cid := r.cid, ctx := r.ctx, timerKey := key, remainder := (r.ctx.deadline - now) - clampTimeout (r.ctx.deadline - now) }] } now by
       split
       · exact hS.quiet (quiet_wakeDispatch _)
       · exact hS
@@ -1140,32 +1131,172 @@ theorem Inv'.insertRequest {x : Option Nat} {b : Snap} {s : St} {now : Nat} {r :
 
 /-! ### `poll_expired` -/
 
-theorem Inv'.pollExpired {x : Option Nat} {b : Snap} {s : St} {now : Nat} (h : Inv' x b s now) :
-    Inv' x b (pollExpired s now).1 now := by
-  unfold Client.pollExpired
+theorem rearmEntry_same (id key t : Nat) (e : Entry) :
+    (rearmEntry id key t e).id = e.id ∧ (rearmEntry id key t e).cid = e.cid ∧ (rearmEntry id key t e).ctx = e.ctx := by
+  unfold rearmEntry; split <;> exact ⟨rfl, rfl, rfl⟩
+
+theorem rearmEntry_ne {id key t : Nat} {e : Entry} (h : e.id ≠ id) : rearmEntry id key t e = e := by
+  unfold rearmEntry; rw [if_neg (by simpa using h)]
+
+theorem rearmEntry_eq {id key t : Nat} {e : Entry} (h : e.id = id) :
+    rearmEntry id key t e = { e with timerKey := key, remainder := e.remainder - t } := by
+  unfold rearmEntry; rw [if_pos (by simpa using h)]
+
+/-- The entries are re-keyed (id, call and context stay) and the timers follow suit. -/
+theorem Inv'.rekey {x : Option Nat} {b : Snap} {s s' : St} {now : Nat} (h : Inv' x b s now) (f : Entry → Entry)
+    (hf : ∀ e, (f e).id = e.id ∧ (f e).cid = e.cid ∧ (f e).ctx = e.ctx)
+    (hm : s'.maxInFlight = s.maxInFlight) (hp : s'.pq = s.pq) (hi : s'.inflight = s.inflight.map f)
+    (hn : s'.nextId = s.nextId) (hc : s'.calls = s.calls) (ho : s'.obs = s.obs)
+    (ht : TInv s.maxInFlight s'.inflight s'.timers now)
+    (hh : s'.handles = s.handles := by rfl) (hnh : s'.nextHandle = s.nextHandle := by rfl) : Inv' x b s' now := by
+  have hfr : frame s' = frame s := by simp only [Client.frame, hc, hm, hh, hnh]
+  have hids : (s.inflight.map f).map (·.id) = s.inflight.map (·.id) := by
+    rw [List.map_map]; apply List.map_congr_left; intro e _; exact (hf e).1
+  refine ⟨fun g hg => hfr.trans (h.fr g hg), ?_, ?_, ?_, ?_, ?_⟩
+  · rw [hm]; exact ht
+  · rw [hn, hp, hi]
+    refine ⟨by rw [hids]; exact h.i.nodup, h.i.pqLt, fun en hen => ?_⟩
+    obtain ⟨e, he, rfl⟩ := List.mem_map.mp hen
+    rw [(hf e).1]; exact h.i.inLt e he
+  · rw [hn, hc]; exact h.c
+  · rw [hc, hp, hi]
+    refine ⟨fun c hc hw => ⟨(h.r.resv c hc hw).1, fun en hen => ?_⟩, h.r.pqCtx, fun en hen => ?_⟩
+    · obtain ⟨e, he, rfl⟩ := List.mem_map.mp hen
+      rw [(hf e).1]; exact (h.r.resv c hc hw).2 e he
+    · obtain ⟨e, he, rfl⟩ := List.mem_map.mp hen
+      rw [(hf e).2.1, (hf e).2.2]; exact h.r.inCtx e he
+  · rw [hm, hc, ho]; exact h.o
+
+/-- The two ways re-arming ends (case analysis on the *result* of the insert). -/
+theorem rearmWith_cases (s : St) (id t : Nat) (r : DelayQ × DelayQ.InsertRes × Bool) :
+    (∃ q' w, r = (q', .panic, w) ∧ rearmWith s id t r =
+      .done (emit { s with poisoned := true } (.panic (tid s) "DelayQueue::insert: invalid deadline")) false) ∨
+    (∃ q' key w, r = (q', .ok key, w) ∧ rearmWith s id t r =
+      .again (if w then wakeDispatch { s with timers := q', inflight := s.inflight.map (rearmEntry id key t) }
+              else { s with timers := q', inflight := s.inflight.map (rearmEntry id key t) })) := by
+  obtain ⟨q', res, w⟩ := r
+  cases res with
+  | panic => exact Or.inl ⟨q', w, rfl, rfl⟩
+  | ok key => exact Or.inr ⟨q', key, w, rfl, rfl⟩
+
+theorem mem_map_rearm {inf : List Entry} (hn : (inf.map (·.id)).Nodup) {en : Entry} (hen : en ∈ inf) (key t : Nat)
+    (x : Entry) :
+    x ∈ inf.map (rearmEntry en.id key t) ↔
+      x ∈ inf.filter (·.id != en.id) ++ [{ en with timerKey := key, remainder := en.remainder - t }] := by
+  simp only [List.mem_map, List.mem_append, List.mem_filter, bne_iff_ne, ne_eq, List.mem_singleton]
+  constructor
+  · rintro ⟨e, he, rfl⟩
+    by_cases hid : e.id = en.id
+    · have : e = en := eq_of_nodup_map (·.id) hn he hen hid
+      subst this
+      exact Or.inr (rearmEntry_eq rfl)
+    · rw [rearmEntry_ne hid]; exact Or.inl ⟨he, hid⟩
+  · rintro (⟨hx, hid⟩ | rfl)
+    · exact ⟨x, hx, rearmEntry_ne hid⟩
+    · exact ⟨en, hen, rearmEntry_eq rfl⟩
+
+theorem length_filter_ne_lt {inf : List Entry} {en : Entry} (hen : en ∈ inf) :
+    (inf.filter (·.id != en.id)).length < inf.length :=
+  List.length_filter_lt_length_iff_exists.mpr ⟨en, hen, by simp⟩
+
+/-- `poll_expired`, one iteration, on the result `r` of polling the queue. -/
+theorem Inv'.expireWith {x : Option Nat} {b : Snap} {s : St} {now : Nat} (h : Inv' x b s now)
+    (r : DelayQ × DelayQ.PollRes) (hr : r = s.timers.pollExpired now) :
+    Inv' x b (expireWith s now r).st now := by
   obtain ⟨hsome, hnone⟩ := h.t.expired h.i.inNodup
-  rcases hp : s.timers.pollExpired now with ⟨q, r⟩
-  rw [hp] at hsome hnone
-  simp only at hsome hnone
-  cases r with
-  | expired e =>
-    simp only
+  rw [← hr] at hsome hnone
+  unfold Client.expireWith
+  split
+  · rename_i q e
     obtain ⟨en0, hen0, hid0, hdl, ht⟩ := hsome e rfl
-    cases hf : findEntry { s with timers := q } e.val with
+    simp only at ht
+    cases hf : findEntry s e.val with
     | none => exact absurd hid0 (findEntry_none_ne hf en0 hen0)
     | some en =>
-      simp only
       obtain ⟨hen, hid⟩ := findEntry_some_mem hf
       have heq : en = en0 := eq_of_nodup_map (·.id) h.i.inNodup hen hen0 (by rw [hid, hid0])
-      have h1 : Inv' x b { s with timers := q, inflight := s.inflight.filter (·.id != e.val) } now :=
-        h.shrink rfl (List.Sublist.refl _) List.filter_sublist rfl rfl rfl ht
-      refine h1.osSend en.cid .deadline ?_
-      intro _ c hc hcid
-      obtain ⟨c0, hc0, e1, e2⟩ := h.r.inCtx en hen
-      have : c = c0 := h.c.cid_unique hc hc0 (by rw [hcid, e1])
-      rw [this, ← e2, heq]; exact hdl
-  | pending => exact h.shrink rfl (List.Sublist.refl _) (List.Sublist.refl _) rfl rfl rfl (hnone rfl)
-  | none => exact h.shrink rfl (List.Sublist.refl _) (List.Sublist.refl _) rfl rfl rfl (hnone rfl)
+      subst heq
+      show Inv' x b (ExpStep.st (if en.remainder != 0 then _ else _)) now
+      split
+      · -- the timer is re-armed with (part of) the remainder
+        rename_i hne
+        have hne' : en.remainder ≠ 0 := by simpa using hne
+        unfold Client.rearm
+        rcases rearmWith_cases s e.val (clampTimeout en.remainder) (q.insert now (clampTimeout en.remainder) e.val) with
+          ⟨q', w, hins, hrw⟩ | ⟨q', key, w, hins, hrw⟩
+        · rw [hrw]
+          exact Inv'.emit (s := { s with poisoned := true }) ⟨h.fr, h.t, h.i, h.c, h.r, h.o⟩
+            ⟨rfl, insert_panic_late hins⟩
+        · rw [hrw]
+          have hle := clampTimeout_le_self en.remainder
+          have hT : TInv s.maxInFlight (s.inflight.map (rearmEntry e.val key (clampTimeout en.remainder))) q' now := by
+            have h1 : TInv s.maxInFlight
+                (s.inflight.filter (·.id != e.val) ++
+                  [{ en with timerKey := key, remainder := en.remainder - clampTimeout en.remainder }]) q' now := by
+              refine ht.insertEntry ?_ { en with timerKey := key, remainder := en.remainder - clampTimeout en.remainder }
+                (by rw [← hid] at hins; exact hins) (by simp only; omega)
+              have := length_filter_ne_lt hen
+              rw [hid] at this
+              exact Nat.lt_of_lt_of_le this h.t.bound
+            refine h1.of_mem (by rw [List.length_map]; exact h.t.bound) (fun y => ?_)
+            rw [← hid]; exact mem_map_rearm h.i.inNodup hen key _ y
+          have hS : Inv' x b { s with timers := q', inflight := s.inflight.map (rearmEntry e.val key (clampTimeout en.remainder)) } now :=
+            h.rekey _ (rearmEntry_same _ _ _) rfl rfl rfl rfl rfl rfl hT
+          show Inv' x b (if w = true then _ else _) now
+          split
+          · exact hS.quiet (quiet_wakeDispatch _)
+          · exact hS
+      · -- nothing left to arm: the deadline has passed
+        rename_i hz
+        have hz' : en.remainder = 0 := by simpa using hz
+        have h1 : Inv' x b { s with timers := q, inflight := s.inflight.filter (·.id != e.val) } now :=
+          h.shrink rfl (List.Sublist.refl _) List.filter_sublist rfl rfl rfl ht
+        refine h1.osSend en.cid .deadline ?_
+        intro _ c hc hcid
+        obtain ⟨c0, hc0, e1, e2⟩ := h.r.inCtx en hen
+        have : c = c0 := h.c.cid_unique hc hc0 (by rw [hcid, e1])
+        rw [this, ← e2]; omega
+  · rename_i q res hres
+    have hn : (q, res).2.entry = none := by
+      cases res with
+      | expired e => exact absurd rfl (hres e)
+      | pending => rfl
+      | none => rfl
+    exact h.shrink rfl (List.Sublist.refl _) (List.Sublist.refl _) rfl rfl rfl (hnone hn)
+
+theorem Inv'.pollExpiredLoop {x : Option Nat} {b : Snap} {now : Nat} (fuel : Nat) (s : St) (h : Inv' x b s now) :
+    Inv' x b (pollExpiredLoop fuel s now).1 now := by
+  induction fuel generalizing s with
+  | zero => exact h
+  | succ fuel ih =>
+    have h1 : Inv' x b (expireStep s now).st now := h.expireWith _ rfl
+    unfold Client.pollExpiredLoop; split <;> rename_i heq <;> rw [heq] at h1
+    · exact ih _ h1
+    · exact h1
+
+theorem Inv'.pollExpired {x : Option Nat} {b : Snap} {s : St} {now : Nat} (h : Inv' x b s now) :
+    Inv' x b (pollExpired s now).1 now := Inv'.pollExpiredLoop _ s h
+
+/-- One iteration of `poll_expired` when the queue yields `e` for the tracked entry `en`. -/
+theorem expireStep_of_expired {s : St} {now : Nat} {e : DqEntry} {en : Entry}
+    (h : (s.timers.pollExpired now).2 = .expired e) (hf : findEntry s e.val = some en) :
+    expireStep s now =
+      if en.remainder != 0 then rearm s (s.timers.pollExpired now).1 now e.val en
+      else .done (osSend { s with timers := (s.timers.pollExpired now).1,
+                                  inflight := s.inflight.filter (·.id != e.val) } en.cid .deadline) true := by
+  unfold Client.expireStep
+  generalize s.timers.pollExpired now = p at h ⊢
+  obtain ⟨q, r⟩ := p
+  simp only at h
+  subst h
+  simp only [Client.expireWith, hf]
+
+/-- Re-arming never fails a request. -/
+theorem rearm_ne_done_true (s : St) (q : DelayQ) (now id : Nat) (en : Entry) (s' : St) :
+    rearm s q now id en ≠ .done s' true := by
+  unfold Client.rearm
+  rcases rearmWith_cases s id (clampTimeout en.remainder) (q.insert now (clampTimeout en.remainder) id) with
+    ⟨_, _, _, hrw⟩ | ⟨_, _, _, _, hrw⟩ <;> rw [hrw] <;> simp
 
 /-! ### `failAll`, queues -/
 
@@ -1376,6 +1507,8 @@ theorem Inv'.pumpWrite {x : Option Nat} {b : Snap} {s : St} {now : Nat} (h : Inv
       split
       · exact h3
       · split
+        · exact h3
+        split
         · have hq := quiet_tClose s3
           generalize tClose s3 = p at hq ⊢
           obtain ⟨s4, r4⟩ := p
